@@ -188,9 +188,42 @@ Section Writer.
   (** dropping the manager: the active [BufWriter] is flushed, nothing is fsynced *)
   Definition wdrop (w : wstate) : disk := w_disk (set_active w (file_flush (active w))).
 
+  (** [intact_prefix_len]: length of the longest prefix of a file that consists of whole
+      records — length field, payload, matching checksum (the payload is not decoded) *)
+  Fixpoint intact_len_fuel (fuel : nat) (bs : bytes) : nat :=
+    match fuel with
+    | O => O
+    | S f =>
+        if (length bs <? 4)%nat then O
+        else
+          let len := u32_of (firstn 4 bs) in
+          let bs1 := skipn 4 bs in
+          if lenZ bs1 <? len + 4 then O
+          else
+            let n := Z.to_nat len in
+            let data := firstn n bs1 in
+            let bs2 := skipn n bs1 in
+            if u32_of (firstn 4 bs2) =? crc data then (8 + n + intact_len_fuel f (skipn 4 bs2))%nat else O
+    end.
+  Definition intact_len (bs : bytes) : nat := intact_len_fuel (S (length bs)) bs.
+  (** [ensure_active_log] on an existing file: a torn tail is cut off ([set_len], [sync_all])
+      before anything is appended *)
+  Definition cut_torn (f : file) : file :=
+    let n := intact_len (f_bytes f) in
+    if (n <? length (f_bytes f))%nat then mkFile (firstn n (f_bytes f)) (Z.of_nat n) (Z.of_nat n) else f.
+
   (** [WalManager::with_config(dir)]: current sequence = largest existing one (0 if none),
-      the active file is opened for append (created empty if absent) *)
+      the active file is opened for append (created empty if absent; cut back to its last
+      intact record if it ends in a torn one) *)
   Definition wopen (d : disk) : wstate :=
+    let s := max_seq (d_files d) in
+    let fs := match get_file s (d_files d) with
+              | Some f => put_file s (cut_torn f) (d_files d)
+              | None => put_file s empty_file (d_files d)
+              end in
+    mkW (set_files d fs) s 0 None.
+  (** before commit 3ca6f5b: the file was opened for append as it was *)
+  Definition wopen_pre (d : disk) : wstate :=
     let s := max_seq (d_files d) in
     let fs := match get_file s (d_files d) with Some _ => d_files d | None => put_file s empty_file (d_files d) end in
     mkW (set_files d fs) s 0 None.
